@@ -14,7 +14,7 @@ the type part is the table below, proved over the real type-deciding code:
    iterable_loader.field_type   : one python type in the sample -> its Table Schema type; several or none -> any
 """
 from contracts.common import Item, mk_resource, mk_package2, expect_no_raise_or_same, _b, field_tree
-from contracts import C15 as K15, C16 as K16, C17 as K17, C11 as K11, C14 as K14
+from contracts import C15 as K15, C16 as K16, C17 as K17, C11 as K11, C14 as K14, C10 as K10
 
 P = 'dataflows/processors/'
 TRUSTED = ['T1 pyvc model of Python (DESIGN 3)', 'T5 tableschema castability: integer / number accept int; number accepts float and '
@@ -224,7 +224,57 @@ def nat_conformance(h):
         h.check(ok and dp.valid, 'pipeline', cfg, 'conformant', ([r['name'] for r in descs], dp.valid))
 
 
+def nat_shapes(h):
+    """bounded, deterministic: package shapes the random pipelines rarely build -- a selected block of resources with untouched
+    ones before AND after it, sources that read one sequential medium (unstream), differently named join keys with unmatched
+    source rows.  Same oracle as above: results() validates, one stream per descriptor, unique names, row keys within the schema"""
+    import os, tempfile, shutil
+    from dataflows import (Flow, concatenate, delete_resource, duplicate, join, stream, unstream, checkpoint, update_resource,
+                           select_fields, delete_fields)
+    four = lambda: [[{'a': i, 'p': 'x'} for i in range(2)], [{'a': 10 + i, 'b': 'u'} for i in range(3)],
+                    [{'a': 20 + i, 'c': 1.5} for i in range(2)], [{'z': 'last', 'a': 30 + i} for i in range(4)]]
+
+    def conformant(cfg, thunk, want_rows=None):
+        got = h.run(thunk)
+        if got[0] != 'ok':
+            h.check(False, 'pipeline', cfg, 'results() validates', (got[1], str(getattr(got[2], 'cause', got[2]))[:300]))
+            return
+        res, dp, _ = got[1]
+        descs = dp.descriptor['resources']
+        ok = len(res) == len(descs) and len({r['name'] for r in descs}) == len(descs) and dp.valid
+        for rows, rd in zip(res, descs):
+            fnames = [f['name'] for f in rd['schema']['fields']]
+            ok = ok and len(set(fnames)) == len(fnames) and all(set(r) <= set(fnames) for r in rows)
+        if ok and want_rows is not None:
+            ok = [len(r) for r in res] == want_rows
+        h.check(ok, 'pipeline', cfg, 'conformant' if want_rows is None else ('conformant, rows per resource', want_rows),
+                ([r['name'] for r in descs], [len(r) for r in res], dp.valid))
+    for sel, want in ((['res_2', 'res_3'], [2, 5, 4]), (['res_1', 'res_2'], [5, 2, 4]), (['res_3', 'res_4'], [2, 3, 6]), ('res_2', [2, 3, 2, 4])):
+        conformant(('concatenate', sel), lambda: Flow(*four(), concatenate({'a': []}, dict(name='both'), resources=sel)).results(), want)
+    for sel, want in (('res_1', [3, 2, 4]), ('res_2', [2, 2, 4]), (['res_1', 'res_3'], [3, 4]), (0, [3, 2, 4]), (-1, [2, 3, 2])):
+        conformant(('delete_resource', sel), lambda: Flow(*four(), delete_resource(sel)).results(), want)
+        d = tempfile.mkdtemp()
+        try:
+            fn = os.path.join(d, 's.ndjson')
+            Flow(*four(), stream(fn)).process()
+            conformant(('unstream + delete_resource', sel), lambda: Flow(unstream(fn), delete_resource(sel)).results(), want)
+            Flow(*four(), checkpoint('c', checkpoint_path=d)).process()
+            conformant(('cached checkpoint + delete_resource', sel),
+                       lambda: Flow(*four(), checkpoint('c', checkpoint_path=d), delete_resource(sel)).results(), want)
+        finally:
+            shutil.rmtree(d, ignore_errors=True)
+    conformant(('duplicate in the middle',), lambda: Flow(*four(), duplicate('res_2', target_name='copy', target_path='copy.csv')).results(),
+               [2, 3, 3, 2, 4])
+    for mode, want in (('inner', [2]), ('half-outer', [3]), ('full-outer', [5])):
+        src = [{'city_id': i, 'pop': 10 * i} for i in (1, 2, 8, 9)]
+        tgt = [{'id': 1, 'n': 'a'}, {'id': 2, 'n': 'b'}, {'id': 3, 'n': 'c'}]
+        conformant(('join, differently named keys', mode),
+                   lambda: Flow(src, tgt, join('res_1', ['city_id'], 'res_2', ['id'], fields={'pop': {}}, mode=mode)).results(), want)
+
+
 ITEMS = [
+    Item('shapes', None, [('deterministic', nat_shapes)], P + 'concatenate.py::concatenate.func'),
+    Item('delete_resource.func', K10.sym_delete_resource, [], P + 'delete_resource.py::delete_resource.func'),
     Item('join.types', sym_join_types, [('conformance', nat_conformance)], P + 'join.py::join_aux.process_target_resource'),
     Item('add_computed_field.get_type', sym_get_type, [], P + 'add_computed_field.py::get_type'),
     Item('iterable_loader.field_type', None, [('differential', nat_field_type)], 'dataflows/helpers/iterable_loader.py::iterable_storage.field_type'),
